@@ -69,6 +69,34 @@ fn thin(seeds: Vec<Seed>, keep: usize, quick: bool) -> Vec<Seed> {
     }
 }
 
+/// Runs `f` on every leaf of `profiles` with queue a's name longer than a block.
+fn explore_long_names<F: Fn(&mut Env, &Leaf) + Sync>(part: &mut Part, profiles: Vec<Profile>, f: F) {
+    let descr: Vec<_> = profiles.iter().map(|p| p.describe()).collect();
+    let stats = explore(&profiles, part.seed, |env, leaf| {
+        set_long_names(true);
+        f(env, leaf);
+        set_long_names(false);
+    });
+    part.stats.merge(stats);
+    part.extra.insert("long_name_profiles(queue a has a name longer than a block)".into(), json!(descr));
+}
+
+fn long_names_vec() -> Vec<String> {
+    set_long_names(true);
+    let v = default_names();
+    set_long_names(false);
+    v
+}
+
+/// Second SEQ pass of a property with queue a's name longer than a block: empty seed only (the
+/// planned seeds assume 1-byte names).
+fn run_seq_long_names(part: &mut Part, alphabet: Vec<Op>, depth: usize, mons: Vec<Monitors>) {
+    let b0 = part.bounds.clone();
+    let mons: Vec<Monitors> = mons.into_iter().map(|m| Monitors { names: Some(long_names_vec()), ..m }).collect();
+    run_seq(part, vec![prof("empty x alphabet, queue a has a name longer than a block", vec![seed_empty()], alphabet, depth)], mons);
+    part.bounds = json!({"short_names": b0, "long_names": part.bounds.clone()});
+}
+
 fn prof(name: &str, seeds: Vec<Seed>, alphabet: Vec<Op>, depth: usize) -> Profile {
     Profile {
         name: name.to_string(),
@@ -110,7 +138,8 @@ pub fn run(part: &mut Part) {
                 accessors: true,
                 ..Default::default()
             };
-            run_seq(part, profiles, vec![mon]);
+            run_seq(part, profiles, vec![mon.clone()]);
+            run_seq_long_names(part, a_full(), if TINY { if q { 3 } else { 4 } } else { 1 }, vec![mon]);
             part.rule = "every op sequence of the stated depth over the alphabet, after every seed; after every op the return value is compared with the reference model and, once per distinct prefix, every read accessor for all range-bound shapes; distinct_nontrivial = distinct (model state, outcome) pairs at which the full accessor comparison ran".into();
             if TINY {
                 part.require_outcomes(&["ring_wrapped_reads", "err-past", "append-noop", "err-missing", "err-exists", "truncated-n"]);
@@ -237,7 +266,8 @@ pub fn run(part: &mut Part) {
                 Monitors { property: "C13", c13: true, policy: Some(PolicyCfg::Default), ..Default::default() },
                 Monitors { property: "C13", c13: true, policy: Some(PolicyCfg::DoNothing), ..Default::default() },
             ];
-            run_seq(part, profiles, mons);
+            run_seq(part, profiles, mons.clone());
+            run_seq_long_names(part, a_full(), if TINY { if q { 2 } else { 3 } } else { 1 }, mons);
             part.rule = "every op sequence of the stated depth over A_full (which contains every rejected / no-op call shape, on existing and missing queues); for every call the model rejects or acknowledges as a no-op: the I/O + frame trace of the call has no write/create/set_len/unlink/frame event, wal_bytes_written is 0, the observable state and (once per prefix) the flushed WAL file bytes are unchanged; at the end the history is re-run without those calls and both directories are reopened and compared; policies Always(Flush) and DoNothing".into();
             part.require_outcomes(&["rejected_or_noop_calls_checked", "err-past", "append-noop", "err-missing", "err-exists", "restart_comparisons_with_vs_without_rejected_calls"]);
         }
@@ -256,7 +286,8 @@ pub fn run(part: &mut Part) {
                 Monitors { property: "C15", c15: true, policy: Some(PolicyCfg::Default), ..Default::default() },
                 Monitors { property: "C15", c15: true, policy: Some(PolicyCfg::DoNothing), ..Default::default() },
             ];
-            run_seq(part, profiles, mons);
+            run_seq(part, profiles, mons.clone());
+            run_seq_long_names(part, a_roll(), if TINY { if q { 3 } else { 4 } } else { 2 }, mons);
             part.rule = "every op sequence of the stated depth after seeds that put the write cursor at block_end-k and file_end-k (k=0..8) and that prepare GC work; per call: wal_bytes_written == sum of frame+padding bytes handed to the WAL writer (frame events) == bytes that reached the files during the call (flush-per-op policy); consecutive frames are contiguous in the WAL (so the running sum is the cursor)".into();
             part.require_outcomes(&["calls_0_bytes", "calls_with_bytes", "calls_with_padding", "calls_with_gc", "calls_with_gc_position_entries"]);
         }
@@ -309,7 +340,17 @@ pub fn run(part: &mut Part) {
                 cont_other: 1,
                 initial_open: true,
             }).collect();
-            run_crash(part, profiles, cfgs);
+            run_crash(part, profiles, cfgs.clone());
+            {
+                let mut cfg0 = cfgs[0].clone();
+                if !TINY {
+                    // 65535-byte names make every image and every continuation op expensive
+                    cfg0.cont_other = 0;
+                    cfg0.cont_struct = 1;
+                }
+                let lalpha = vec![Op::Create(QA), Op::Delete(QA), Op::app(QA, Pos::Auto, Sz::S3), Op::Trunc { q: QA, at: Tr::Last }, Op::Create(QB), Op::app(QB, Pos::Auto, Sz::S3), Op::Reopen];
+                explore_long_names(part, vec![prof("empty x 7 ops, long name", vec![seed_empty()], lalpha, if TINY { if q { 3 } else { 4 } } else if q { 1 } else { 2 })], move |env, leaf| crash_leaf(env, leaf, &cfg0));
+            }
             part.rule = "every history of the bound x every crash point inside its last op (every fs-effect prefix, every byte of every write) -> directory image rebuilt from the trace -> real open(): must succeed and yield the state before or after the in-flight op (or a partial truncate/delete); every crash point of the recovery's own writes is applied on top and recovered again; then every continuation sequence (depth 1-2 over 7 ops) + restart must behave as on the model. distinct_nontrivial is not separately measured here (states = distinct recovered fingerprints)".into();
             part.require_outcomes(&["continuations", "recoveries_with_writes_(second_crash_enumerated)"]);
         }
@@ -513,6 +554,10 @@ pub fn run(part: &mut Part) {
             let descr: Vec<_> = profiles.iter().map(|p| p.describe()).collect();
             let stats = explore(&profiles, part.seed, |env, leaf| crate::damage::c09_leaf(env, leaf));
             part.stats.merge(stats);
+            {
+                let lalpha = vec![Op::Create(QA), Op::Delete(QA), Op::app(QA, Pos::Auto, Sz::S3), Op::Trunc { q: QA, at: Tr::Last }, Op::Create(QB), Op::app(QB, Pos::Auto, Sz::S3)];
+                explore_long_names(part, vec![prof("empty x 6 ops, long name", vec![seed_empty()], lalpha, if TINY { if q { 3 } else { 4 } } else if q { 1 } else { 2 })], |env, leaf| crate::damage::c09_leaf(env, leaf));
+            }
             part.bounds = json!({"image_profiles": descr, "faults": "for every frame of the image (frame table from the harness's own frame events): every payload byte and every CRC byte altered by +1, xor 0xFF, zeroed; whole payload zeroed / set to 0xFF (real geometry: first/last 16 and every 1021st payload byte)"});
             part.stats.sample(|| json!({"image":"seed recreated:a + Delete(a)","fault":{"kind":"frame-byte","part":"payload","alteration":"xor-ff"},"oracle":"open Ok; every retained record not appended by the damaged entry recovered intact, in order; extras must be genuine"}));
             part.rule = "for the WAL image left by every history of the bound (incl. queue deletion / re-creation and GC-written position entries): every frame x every payload/CRC byte alteration; open must succeed and every record the model retains, except those appended by the call that wrote the damaged frame, must be returned with identical position and bytes, in order; anything additional must have been appended".into();
